@@ -607,8 +607,12 @@ fn families(tier: &str) -> Vec<Vec<&'static str>> {
         vec!["key=1 set=1:5", "key=1 add=2"],                   // field write vs reference add
         vec!["key=1 set=1:5", "key=2 set=1:6"],                 // different rows
         vec!["key=1 set=1:5", "key=1 set=2:7", "key=1 set=1:8"], // three mutations of one row
+        // updates that re-send the value a field already has, together with a room move / a reference change
+        vec!["key=1 set=1:0 room=2", "key=2 set=1:0,2:0 pet=3"],
+        vec!["key=1 set=1:5", "key=1 set=1:5 room=2"],
     ];
     if tier != "quick" {
+        f.push(vec!["key=1 set=1:0,2:0 room=2 add=3", "key=1 set=2:0 room=1", "key=1 set=1:0 pet=4"]);
         f.push(vec!["key=1 pet=2", "key=1 pet=null"]);
         f.push(vec!["key=1 set=1:5 room=2", "key=1 set=1:6 room=1"]);
         f.push(vec!["key=1 set=1:5", "key=1 pet=2", "key=1 add=3"]);
@@ -666,7 +670,15 @@ pub fn gen(a: &Args) {
         for i in 0..nm {
             let key = if g.chance(3, 4) { 1 } else { 2 };
             let mut parts = vec![format!("key={}", key)];
-            match g.below(5) {
+            match g.below(6) {
+                // re-sends the initial value of the field(s) (the current one unless another mutation changed it)
+                5 => {
+                    parts.push(if g.chance(1, 2) { "set=1:0".to_string() } else { "set=1:0,2:0".to_string() });
+                    parts.push(format!("room={}", 1 + g.below(2)));
+                    if g.chance(1, 3) {
+                        parts.push(format!("add={}", 2 + g.below(3)));
+                    }
+                }
                 0 => parts.push(format!("set=1:{}", 1 + g.below(9))),
                 1 => parts.push(format!("set=2:{}", 1 + g.below(9))),
                 2 => parts.push(format!("set=1:{},2:{}", 1 + g.below(9), 1 + g.below(9))),
@@ -680,7 +692,7 @@ pub fn gen(a: &Args) {
             if g.chance(1, 5) && !parts.iter().any(|p| p.starts_with("set")) {
                 parts.push(format!("set=1:{}", 1 + g.below(9)));
             }
-            if g.chance(1, 5) && parts.iter().any(|p| p.starts_with("set")) {
+            if g.chance(1, 5) && parts.iter().any(|p| p.starts_with("set")) && !parts.iter().any(|p| p.starts_with("room")) {
                 parts.push(format!("room={}", 1 + g.below(2)));
             }
             writeln!(w, "mut i={} {}", i, parts.join(" ")).unwrap();
